@@ -10,6 +10,7 @@ import (
 	"os"
 
 	"github.com/corazawaf/coraza/v3/internal/environment"
+	"github.com/corazawaf/coraza/v3/internal/verif"
 	"github.com/corazawaf/coraza/v3/types"
 )
 
@@ -75,8 +76,14 @@ func (br *BodyBuffer) Write(data []byte) (n int, err error) {
 			return 0, errors.New("memoryLimit reached while writing")
 		} else {
 			if br.writer == nil {
+				if err := verif.Fault("body.createtemp"); err != nil {
+					return 0, err
+				}
 				br.writer, err = os.CreateTemp(br.options.TmpPath, "body*")
 				if err != nil {
+					return 0, err
+				}
+				if err := verif.Fault("body.spillcopy"); err != nil {
 					return 0, err
 				}
 				// we dump the previous buffer
@@ -84,6 +91,9 @@ func (br *BodyBuffer) Write(data []byte) (n int, err error) {
 					return 0, err
 				}
 				br.buffer.Reset()
+			}
+			if err := verif.Fault("body.write"); err != nil {
+				return 0, err
 			}
 			br.length = targetLen
 			return br.writer.Write(data)
@@ -121,6 +131,9 @@ func (b *bodyBufferReader) Read(p []byte) (n int, err error) {
 		return an, nil
 	}
 
+	if err := verif.Fault("body.readat"); err != nil {
+		return 0, err
+	}
 	n, err = b.br.writer.ReadAt(p, int64(b.pos))
 	b.pos += n
 	return
@@ -162,7 +175,14 @@ func (br *BodyBuffer) Reset() error {
 	if environment.HasAccessToFS && br.writer != nil {
 		w := br.writer
 		br.writer = nil
+		if err := verif.Fault("body.close"); err != nil {
+			_ = w.Close()
+			return err
+		}
 		if err := w.Close(); err != nil {
+			return err
+		}
+		if err := verif.Fault("body.remove"); err != nil {
 			return err
 		}
 		return os.Remove(w.Name())
